@@ -37,7 +37,10 @@ MiscClauses(s, e) ==
        \cup (IF Sync(s) /\ ~MiscBelowMin(s, e) THEN {Cl("Sync", Sync(t))} ELSE {})
        \cup (IF e.op \in {"put_line_comment", "par", "unpar"} THEN {Cl("NothingElse", t.liveS = s.liveS)}
              ELSE IF e.op = "put_docstr" THEN {Cl("NothingElse", OnlyChangedAt(s.liveS, t.liveS, e.path, {"body"}))}
-             ELSE IF e.op = "prim_put" THEN {Cl("NothingElse", OnlyChangedAt(s.liveS, t.liveS, e.path, {e.field}))}
+             ELSE IF e.op = "prim_put"
+                  THEN {Cl("NothingElse", OnlyChangedAt(s.liveS, t.liveS, e.path,
+                                                        \* Constant.kind ('u' prefix) is a function of the literal's text
+                                                        {e.field} \cup (IF e.field = "value" THEN {"kind"} ELSE {})))}
              ELSE {})
   ELSE { Cl("AtomicOnRaise.tree", t.liveP = s.liveP /\ t.liveS = s.liveS), Cl("AtomicOnRaise.text", t.text = s.text),
          Cl("AtomicOnRaise.srcparse", t.srcOk = s.srcOk /\ t.srcP = s.srcP),
